@@ -435,6 +435,48 @@ theorem multi_step_too_many_events_as_is_counterexample :
     (match multiStepTurn (ε := Unit) (δ := Unit) (fun _ => .error ()) (fun _ => .ok []) (fun _ => .ok [.step 0])
       .none (lit "f") (lit "bot x") [] with | .error .tooManyEvents => true | _ => false) = true := by decide +kernel
 
+/-! ### … and at FULL strength for the repaired runtime (fixes/C17-v1-flow-error-ends-turn.diff) -/
+
+/-- **multi_step_never_raises (repaired runtime, full strength)**: for EVERY behaviour of the parser, of `compute_next_steps` (both
+    may raise anything, at any iteration) and of the actions, and for every completion, the multi-step turn yields a non-empty
+    list of events whose last one is `Listen`.  (The result type is a plain list: in the repaired code no `raise` is left on this
+    path; what the theorem adds is that the loop always ENDS with `Listen`, also through the 100-event valve.) -/
+theorem multi_step_never_raises_repaired {ε δ : Type} (parse : ParseOracle ε) (nextSteps : Str → Except δ (List Ev))
+    (cont : List Ev → Except δ (List Ev)) (act : List Ev → Option (List Ev)) (p : Parser) (flowId out : Str) (history : List Ev) :
+    multiStepTurnR parse nextSteps cont act p flowId out history ≠ []
+      ∧ lastEv (multiStepTurnR parse nextSteps cont act p flowId out history) = some .listen :=
+  genLoopR_spec _ 102 _ []
+
+/-- the two counterexamples of the as-is runtime end with the internal-error events and `Listen` once repaired -/
+theorem multi_step_expression_error_repaired :
+    multiStepTurnR (ε := Unit) (δ := Unit) (fun _ => .ok [lit "f"]) (fun _ => .error ()) (fun _ => .ok []) (fun _ => none)
+      .none (lit "f") (lit "$x = x") [] = internalErrorEvents ++ [.listen] := by rfl
+
+/-! ## Phase 4 — `literal_eval` is an oracle; the wrapper of 2.x `GenerateValueAction`
+
+FULL statement: whatever `literal_eval` does (raises anything, returns any Python literal) the action either returns a value that
+a flow variable / the serialised state can hold, or raises the fixed `Invalid LLM response` (contained by the action dispatcher).
+True of the REPAIRED wrapper (`generate_value_v2_total`, fixes/C17-v2-generated-value-plain.diff); false as is
+(`generate_value_v2_nonstorable_as_is_counterexample`, open finding `escape:v2_value:serialization.py:encode_to_dict:Exception`). -/
+
+theorem generate_value_v2_total {ε : Type} (literalEval : Str → Except ε Lit) (p : Parser) (lastPromptLine out : Str) :
+    (∃ x, generateValueV2R literalEval p lastPromptLine out = .ok x ∧ x.isPlain = true)
+    ∨ ∃ v, generateValueV2R literalEval p lastPromptLine out = .error (.invalidLlmResponse v) :=
+  generateValueV2R_spec literalEval p lastPromptLine out
+
+/-- as is: only the exception class is controlled (`…_partial`: nothing is said about the returned value) -/
+theorem generate_value_v2_total_partial {ε : Type} (literalEval : Str → Except ε Lit) (p : Parser) (lastPromptLine out : Str) :
+    (∃ x, generateValueV2 literalEval p lastPromptLine out = .ok x)
+    ∨ ∃ v, generateValueV2 literalEval p lastPromptLine out = .error (.invalidLlmResponse v) :=
+  generateValueV2_spec literalEval p lastPromptLine out
+
+/-- as is, `...` (Ellipsis) reaches the flow variable: a value the state serialisation cannot store -/
+theorem generate_value_v2_nonstorable_as_is_counterexample :
+    ∃ x, generateValueV2 (ε := Unit) (fun _ => .ok .ellipsis) .none (lit "$v =") (lit "...") = .ok x ∧ x.isPlain = false :=
+  ⟨.ellipsis, by
+    obtain ⟨v, hv⟩ := postValueV2_ok .none (lit "$v =") (lit "...")
+    simp [generateValueV2, hv], rfl⟩
+
 /-! ## Phase 2 — the dataflow theorem over GENERATED data
 
 `Generated/C17Dataflow.lean` is the IR of every function of generation.py (1.0), generation.py (2.x) and taskmanager.py that
